@@ -3511,7 +3511,7 @@ class VirtualMachine:
       return self.store_local(state, name, var)
     try:
       idx = self.frame.f_code.get_cell_index(name)
-    except ValueError:
+    except KeyError:
       return self.store_local(state, name, var)
     self.frame.cells[idx].PasteVariable(var)
     return state
